@@ -1248,7 +1248,12 @@ class Unit:
     @lru_cache(maxsize=None)
     def as_ratio(self) -> Tuple["Unit", "Unit"]:
         """Returns this unit, split into a numerator and denominator"""
-        numerator, denominator = self.dimension.as_ratio()
+        numerator, denominator = Number, Number
+        for unit, exponent in self.factors.items():
+            if exponent >= 0:
+                numerator *= unit.dimension**exponent
+            else:
+                denominator *= unit.dimension**-exponent
         return (
             Unit(
                 self.prefix,
